@@ -239,7 +239,9 @@ fn json_int(v: &serde_json::Value) -> Option<i64> {
 }
 
 fn judge(c: &Case) -> Outcome {
-    let dir = match tempfile::tempdir() {
+    // memory-backed when available: one small DLQ file per case
+    let base = if std::path::Path::new("/dev/shm").is_dir() { std::path::PathBuf::from("/dev/shm") } else { std::env::temp_dir() };
+    let dir = match tempfile::Builder::new().prefix("vh-c45-").tempdir_in(base) {
         Ok(d) => d,
         Err(e) => return Outcome::discard(format!("tempdir: {}", e)),
     };
@@ -571,6 +573,6 @@ fn main() {
         check.inconclusive("virtual clock not active");
         check.finish();
     }
-    check.explore("script", strat, 40_000, 800_000, judge);
+    check.explore("script", strat, 150_000, 3_000_000, judge);
     check.finish();
 }
